@@ -36,7 +36,8 @@ def generate(seed, prop):
              "meta": {"site": "S%d" % i, "nested": {"list": [1, 2, 3]}, "tuple_like": [0.5, 2]}} for i in range(n_rec)]
     fault_rate = rng.choice([0.0, 0.0, 0.2, 0.5])
     w = {"trim": 3.0, "filter": 1.5, "detrend": 1.5, "window": 1.5, "orient": 1.5, "split": 1.5,
-         "copy": 2.0, "ts_copy": 1.0, "construct": 1.0, "edit_samples": 2.5, "edit_meta": 1.0,
+         "copy": 2.0, "ts_copy": 1.0, "construct": 1.0, "ts_split": 1.2, "ts_from_array": 1.0, "edit_caller_array": 1.0,
+         "ts_method": 1.0, "edit_samples": 2.5, "edit_meta": 1.0,
          "assign_samples": 0.7, "save": 3.0, "load": 3.0}
     for k in list(w):
         if rng.random() < 0.12 and k not in ("save", "load"):
@@ -71,6 +72,15 @@ def draw_op(rng, name, fault_rate):
         return {"op": "split", "i": i, "frac": rng.choice([0.2, 0.34, 0.5, 0.99, 1.5])}
     if name in ("copy", "ts_copy", "construct"):
         return {"op": name, "i": i, "comp": rng.choice(["ns", "ew", "vt"])}
+    if name == "ts_split":
+        return {"op": name, "i": i, "comp": rng.choice(["ns", "ew", "vt"]), "frac": rng.choice([0.2, 0.34, 0.5])}
+    if name == "ts_from_array":
+        return {"op": name, "k": rng.randrange(1 << 30), "n": rng.randint(50, 400), "rate": rng.choice(RATES),
+                "dtype": rng.choice(["float64", "float64", "float32", "int64", "list"])}
+    if name == "edit_caller_array":
+        return {"op": name, "i": i, "k": rng.randrange(1000), "delta": rng.choice([1.0, -3.0])}
+    if name == "ts_method":
+        return {"op": name, "i": i, "method": rng.choice(["window", "detrend", "filter", "trim"]), "width": rng.choice([0.1, 0.5, 1.0])}
     if name in ("edit_samples", "assign_samples"):
         return {"op": name, "i": i, "comp": rng.choice(["ns", "ew", "vt"]), "k": rng.randrange(1000),
                 "delta": rng.choice([1.0, -2.5, 1e6])}
@@ -152,6 +162,7 @@ def execute(triple, prop):
     st.fs = SimFS(SimDisk(), ctx)
     st.saved = {}
     st.torn = set()
+    st.caller_arrays = []
     violation = None
     last = []
     try:
@@ -291,6 +302,67 @@ def step(ctx, st, op, H):
             st.alias_kind = "ctor_arg"
             ctx.probe("constructed_from_caller_timeseries")
             ctx.state_changes += 1
+    elif name == "ts_split":
+        src = None
+        ts_pool = [o for o in st.pool if isinstance(o, H.TimeSeries)]
+        if ts_pool and op["i"] % 2:
+            src = ts_pool[op["i"] % len(ts_pool)]
+        elif rec is not None:
+            src = H.TimeSeries.from_timeseries(getattr(rec, op["comp"]))
+            add(st, src)
+            created.append(src)
+        if src is not None:
+            T = (src.n_samples - 1) * src.dt_in_seconds
+            try:
+                wins = src.split(max(op["frac"] * T, src.dt_in_seconds * 3))
+                for w in wins[:3]:
+                    add(st, w)
+                    created.append(w)
+                st.alias_kind = "ts_split"
+                ctx.probe("ts_split_created")
+            except ValueError:
+                info = "ValueError"
+            ctx.state_changes += 1
+    elif name == "ts_from_array":
+        g = np_rng(op["k"])
+        vals = np.round(g.normal(0, 100, op["n"]))
+        arr = vals.tolist() if op["dtype"] == "list" else vals.astype(op["dtype"])
+        t = H.TimeSeries(arr, 1.0 / op["rate"])
+        ctx.check(np.array_equal(t.amplitude, np.asarray(vals, float)), "constructor_altered_samples", "TimeSeries(array) does not hold the samples given")
+        if not isinstance(arr, list):
+            st.caller_arrays.append(arr)
+            st.caller_arrays = st.caller_arrays[-4:]
+        add(st, t)
+        created.append(t)
+        st.alias_kind = "ctor_array"
+        ctx.probe("timeseries_from_caller_array")
+        ctx.state_changes += 1
+    elif name == "edit_caller_array":
+        if st.caller_arrays:
+            a = st.caller_arrays[op["i"] % len(st.caller_arrays)]
+            a[op["k"] % len(a)] += op["delta"]
+            st.alias_kind = "caller_array_edit"
+            ctx.probe("edited_caller_array")
+            ctx.state_changes += 1
+    elif name == "ts_method":
+        ts_pool = [o for o in st.pool if isinstance(o, H.TimeSeries)]
+        if ts_pool:
+            t = ts_pool[op["i"] % len(ts_pool)]
+            targets = [t]
+            try:
+                if op["method"] == "window":
+                    t.window("tukey", op["width"])
+                elif op["method"] == "detrend":
+                    t.detrend("linear")
+                elif op["method"] == "filter":
+                    t.butterworth_filter((None, 0.2 / t.dt_in_seconds), order=3)
+                else:
+                    T = (t.n_samples - 1) * t.dt_in_seconds
+                    t.trim(0.1 * T, 0.8 * T)
+            except Exception as ex:                          # noqa
+                info = type(ex).__name__
+            st.alias_kind = "ts_inplace_" + op["method"]
+            ctx.state_changes += 1
     elif name in ("edit_samples", "assign_samples"):
         o = st.pool[op["i"] % len(st.pool)] if st.pool else None
         if o is not None:
@@ -399,6 +471,12 @@ def step(ctx, st, op, H):
                 ctx.check(False, "shared_sample_storage",
                           f"after {name}: objects #{arrs[x][0]} and #{arrs[y][0]} of the pool share sample storage",
                           key={"op": name, "alias": st.alias_kind})
+    for ci, ca in enumerate(st.caller_arrays):
+        for j, a in arrs:
+            if np.shares_memory(ca, a):
+                ctx.check(False, "shared_sample_storage",
+                          f"after {name}: object #{j} of the pool shares sample storage with an array still held by the caller",
+                          key={"op": name, "alias": "caller_array"})
     ctx.judged["no_shared_storage"] += 1
     # components inside one recording are distinct too
     for j, o in enumerate(st.pool):
